@@ -8,12 +8,16 @@ def greedy(rec, candidates_fn, test_fn, max_rounds=50, max_tests=4000):
 
     candidates_fn(rec) yields smaller variants; test_fn(variant) -> None | accepted variant.
     """
+    import os
+    import time
+
+    t_end = time.time() + float(os.environ.get("VERIF_MIN_BUDGET_S", "90"))
     tests = 0
     for _ in range(max_rounds):
         progressed = False
         for cand in candidates_fn(rec):
             tests += 1
-            if tests > max_tests:
+            if tests > max_tests or time.time() > t_end:
                 return rec, tests
             got = test_fn(cand)
             if got:
